@@ -58,3 +58,30 @@ theorem d1_fixed (x : Bytes) :
   constructor <;> simp [header, u32, toSigned, OP_ERROR, OP_UNSUBSCRIBE] <;> omega
 
 end Hpfeeds.Legacy
+
+namespace Hpfeeds.Legacy
+
+/-! ### D2 — `Server.subscribe` / `unsubscribe` before "fix: make broker subscribe/unsubscribe idempotent
+    per connection and channel" (commit d618c60): the channel list was appended to unconditionally while
+    `active_subscriptions` is a set, and `unsubscribe` / `connection_lost` removed one entry per set
+    element. -/
+
+/-- pinned `self.subscriptions[chan].append(source)` -/
+def legacySub (l : List Nat) (c : Nat) : List Nat := l ++ [c]
+/-- pinned `if source in self.subscriptions[chan]: self.subscriptions[chan].remove(source)` -/
+def legacyUnsub (l : List Nat) (c : Nat) : List Nat := l.erase c
+
+/-- SUBSCRIBE, SUBSCRIBE, UNSUBSCRIBE: the connection is still in the channel's list (so it still gets
+    every message, C08) -/
+theorem d2_still_subscribed : 1 ∈ legacyUnsub (legacySub (legacySub [] 1) 1) 1 := by decide
+
+/-- SUBSCRIBE, SUBSCRIBE, then connection_lost (one unsubscribe for the one set element): a stale entry
+    for a connection whose `server` is now None — the next publisher on the channel runs
+    `dest.connection_lost(None)` on it and crashes with AttributeError in its own callback (C10) -/
+theorem d2_stale_entry : legacyUnsub (legacySub (legacySub [2] 1) 1) 1 = [2, 1] := by decide
+
+/-- pinned gauge arithmetic: `unsubscribe` decremented unconditionally -/
+def legacyGaugeAfterUnsubOfNeverSubscribed : Int := 0 - 1
+theorem d2_negative_gauge : legacyGaugeAfterUnsubOfNeverSubscribed < 0 := by decide
+
+end Hpfeeds.Legacy
